@@ -279,6 +279,8 @@ package ast
 //@ pred IsWalkNode(e Expression) bool = IsExpr(e) || (is(e, "*Rule") && as(e, "*Rule") != nil) || (is(e, "*Grammar") && as(e, "*Grammar") != nil)
 
 //@ frameset Tree = all ActionExpr.Expr, all AndExpr.Expr, all ChoiceExpr.Alternatives, all Grammar.Rules, all LabeledExpr.Expr, all NotExpr.Expr, all OneOrMoreExpr.Expr, all Rule.Expr, all SeqExpr.Exprs, all ZeroOrMoreExpr.Expr, all ZeroOrOneExpr.Expr, all RecoveryExpr.Expr, all RecoveryExpr.RecoverExpr, all LitMatcher.posValue, all CharClassMatcher.posValue, all CharClassMatcher.Chars, all CharClassMatcher.Ranges, all CharClassMatcher.UnicodeClasses
+//@ frameset OptMaps = all grammarOptimizer.optimized, all map[string]map[string]struct{}, all map[string]struct{}
+//@ pred OptOK(r *grammarOptimizer) bool = r != nil && r.ruleUsedByRules != nil && r.ruleUsesRules != nil && RulesWF(r.rules)
 //@ frameset Opt = all grammarOptimizer.rule, all grammarOptimizer.optimized, all grammarOptimizer.visitor, all map[string]*Rule, all map[string]map[string]struct{}, all map[string]struct{}
 
 // a visitor may rewrite the tree but keeps it well-formed (assumed for the interface; the
@@ -309,7 +311,28 @@ package ast
 //@   safety C13
 
 //@ func (r *grammarOptimizer) optimizeRule(expr Expression) (res Expression)
-//@   requires [node] r != nil && IsExpr(expr) && TreeWF() && r.ruleUsedByRules != nil && r.ruleUsesRules != nil && RulesWF(r.rules)
-//@   modifies Opt
-//@   ensures [wf C09 C13] IsExpr(res) && TreeWF()
+//@   requires [node] OptOK(r) && IsExpr(expr) && TreeWF()
+//@   modifies OptMaps
+//@   ensures [wf C09 C13] IsExpr(res) && TreeWF() && OptOK(r)
+//@   safety C13
+
+// The optimize visitor. Its slice surgery on aliased backing arrays is outside the value model of
+// slices (DESIGN C09), so neither its safety nor "keeps the tree well-formed" is claimed here (Walk
+// ASSUMES the latter of every visitor). What is decided: the class/literal merge arms only ever build
+// a UNION of two non-inverted classes with equal case sensitivity ([^a] / [^b] is not [^ab]), and
+// literals are only concatenated when their case sensitivity agrees (C09).
+//@ func (r *grammarOptimizer) optimize(expr0 Expression) (w Visitor)
+//@   requires [node] OptOK(r) && (expr0 == nil || IsWalkNode(expr0)) && TreeWF()
+//@   modifies Tree, Opt
+//@   nosafety
+//@   at "c0.Chars = append(c0.Chars, c1.Chars...)" assert [merge-union C09] !c0.Inverted && !c1.Inverted && c0.IgnoreCase == c1.IgnoreCase
+//@   at "c1.Chars = append(c1.Chars, []rune(l0.Val)...)" assert [merge-lit-class C09] !c1.Inverted && l0.IgnoreCase == c1.IgnoreCase
+//@   at "c0.Chars = append(c0.Chars, []rune(l1.Val)...)" assert [merge-class-lit C09] !c0.Inverted && c0.IgnoreCase == l1.IgnoreCase
+//@   at "l0.Val += l1.Val" assert [concat-lit C09] l0.IgnoreCase == l1.IgnoreCase
+
+//@ func (r *grammarOptimizer) optimizeRules(exprs []Expression) (res []Expression)
+//@   requires [node] OptOK(r) && TreeWF() && forall k int :: 0 <= k && k < len(exprs) ==> IsExpr(exprs[k])
+//@   modifies OptMaps
+//@   ensures [wf C09 C13] TreeWF() && OptOK(r) && len(res) == len(exprs) && forall k int :: 0 <= k && k < len(res) ==> IsExpr(res[k])
+//@   loop#1 invariant [wf] 0 <= i && TreeWF() && OptOK(r) && len(exprs) == old(len(exprs)) && forall k int :: 0 <= k && k < len(exprs) ==> IsExpr(exprs[k])
 //@   safety C13
